@@ -647,3 +647,22 @@ func replaySession(c *Ctx) {
 		c.E.EndCase(true, "replay")
 	}
 }
+
+// readOpLines returns the op part of every non-empty line of a replay file
+func readOpLines(path string) []string {
+	f, err := os.Open(path)
+	if err != nil {
+		panic(err)
+	}
+	defer f.Close()
+	sc := bufio.NewScanner(f)
+	sc.Buffer(make([]byte, 1<<20), 1<<24)
+	var out []string
+	for sc.Scan() {
+		line := strings.SplitN(sc.Text(), "\t", 2)[0]
+		if strings.TrimSpace(line) != "" {
+			out = append(out, line)
+		}
+	}
+	return out
+}
